@@ -221,6 +221,8 @@ class Normalizer:
         self.cache = {}
         self._resolved = {}
         self._bound = set()
+        self._stack = []
+        self.recursive = set()
 
     # -- modules / globals
     def module(self, rel):
@@ -317,6 +319,9 @@ class Normalizer:
         key = (rel, cls, name)
         if key in self.cache:
             return copy.deepcopy(self.cache[key])
+        if key in self._stack:              # a (mutually) recursive helper is never inlined, anywhere
+            self.recursive.update(self._stack[self._stack.index(key):])
+            return None
         tree = self.module(rel)
         if tree is None:
             return None
@@ -328,7 +333,11 @@ class Normalizer:
         cands = [n for n in scope.body if isinstance(n, ast.FunctionDef) and n.name == name]
         if len(cands) != 1:
             return None
-        fn = self.normalize(cands[0], rel, cls, depth)
+        self._stack.append(key)
+        try:
+            fn = self.normalize(cands[0], rel, cls, depth)
+        finally:
+            self._stack.pop()
         self.cache[key] = fn
         return copy.deepcopy(fn)
 
@@ -441,7 +450,7 @@ class Normalizer:
             h = self.func(hrel, node.name, hcls, depth + 1)
         finally:
             self._bound = saved
-        if h is None:
+        if h is None or (hrel, hcls, node.name) in self.recursive:
             return None
         binding = self.bind(h, call, pre)       # h: the defaults are in normal form too (module constants resolved)
         if binding is None:
